@@ -37,6 +37,62 @@ theorem mapM_range_some {β : Type} (f : Nat → Option β) (xs : List Nat) (l :
     | zero => simpa using hb
     | succ i => simpa using h2 i (by simpa using hi) (by simpa using hi')
 
+/-- what every iteration of the loop of `DimensionMappings::new` guarantees about the two
+    tables it fills (positions are valid and carry the looked-up names) -/
+theorem new_tables {source : Shape ν} {requested : List ν} {m : DimensionMappings}
+    (h : DimensionMappings.new source requested = some m) :
+    requested.length = source.length ∧ m.sourceToRequested.length = source.length ∧
+    m.requestedToSource.length = source.length ∧
+    ∀ d, d < source.length →
+      m.sourceToRequested.getD d 0 < source.length ∧ m.requestedToSource.getD d 0 < source.length ∧
+      requested.getD (m.sourceToRequested.getD d 0) default = (source.getD d (default, 0)).1 ∧
+      (source.getD (m.requestedToSource.getD d 0) (default, 0)).1 = requested.getD d default := by
+  simp only [DimensionMappings.new] at h
+  split at h
+  · simp at h
+  · rename_i hlen
+    simp only [ne_eq, Decidable.not_not] at hlen
+    split at h
+    · simp at h
+    · rename_i l hl
+      simp only [Option.some.injEq] at h
+      subst h
+      obtain ⟨hll, hget⟩ := mapM_range_some _ _ _ hl
+      simp only [List.length_range] at hll
+      refine ⟨hlen.symm, by simp [hll], by simp [hll], ?_⟩
+      intro d hd
+      have hdl : d < l.length := by omega
+      have hdr : d < requested.length := by omega
+      have := hget d (by simpa using hd) hdl
+      simp only [List.getElem_range, mappingAt, List.getElem?_map,
+        List.getElem?_eq_getElem hd, Option.map_some, List.getElem?_eq_getElem hdr] at this
+      have g1 : (l.map (·.1)).getD d 0 = (l[d]).1 := by
+        rw [getD_eq_getElem' (by simp; omega)]; simp
+      have g2 : (l.map (·.2)).getD d 0 = (l[d]).2 := by
+        rw [getD_eq_getElem' (by simp; omega)]; simp
+      simp only [g1, g2, getD_eq_getElem' hd, getD_eq_getElem' hdr]
+      split at this
+      · rename_i heq
+        simp only [Option.some.injEq] at this
+        rw [← this]
+        simp only [getD_eq_getElem' hd, getD_eq_getElem' hdr]
+        exact ⟨hd, hd, by simpa using heq, by simp [heq]⟩
+      · split at this
+        · simp at this
+        · rename_i a ha
+          split at this
+          · simp at this
+          · rename_i b hb
+            simp only [Option.some.injEq] at this
+            rw [← this]
+            obtain ⟨ha1, ha2⟩ := findPos_some ha
+            obtain ⟨hb1, hb2⟩ := findPos_some hb
+            simp only [decide_eq_true_eq] at ha2 hb2
+            simp only [List.length_map] at hb1
+            simp only [List.getElem_map] at hb2
+            simp only [getD_eq_getElem' ha1, getD_eq_getElem' hb1]
+            exact ⟨by omega, hb1, ha2, hb2⟩
+
 theorem new_mappingOK {source : Shape ν} {requested : List ν} {m : DimensionMappings}
     (hn : (namesOf source).Nodup) (h : DimensionMappings.new source requested = some m) :
     MappingOK m source.length := by
@@ -145,5 +201,58 @@ theorem mkTranspose_wf {s v : View ν α} {dimensions : List ν} (hs : s.WF)
   obtain ⟨m, hm, rfl⟩ := h
   simp only [View.WF]
   exact ⟨hs, new_mappingOK (goodShape_iff.1 (View.correct s hs).1).1 hm⟩
+
+/-! ### `DimensionMappings::new` succeeds for every reordering of the source's names -/
+
+theorem mapM_some_of_forall {β : Type} (f : Nat → Option β) (xs : List Nat)
+    (h : ∀ x ∈ xs, (f x).isSome = true) : ∃ l, xs.mapM f = some l := by
+  induction xs with
+  | nil => exact ⟨[], by simp⟩
+  | cons x xs ih =>
+    obtain ⟨l, hl⟩ := ih (fun y hy => h y (by simp [hy]))
+    have hx := h x (by simp)
+    obtain ⟨b, hb⟩ := Option.isSome_iff_exists.1 hx
+    exact ⟨b :: l, by simp [List.mapM_cons, hb, hl]⟩
+
+theorem findPos_isSome_of_mem {β : Type} {p : β → Bool} {l : List β} (h : ∃ x ∈ l, p x = true) :
+    (findPos p l).isSome = true := by
+  induction l with
+  | nil => obtain ⟨x, hx, _⟩ := h; cases hx
+  | cons y ys ih =>
+    simp only [findPos]
+    by_cases hy : p y = true
+    · simp [hy]
+    · simp only [hy, Bool.false_eq_true, if_false, Option.isSome_map]
+      apply ih
+      obtain ⟨x, hx, hpx⟩ := h
+      simp only [List.mem_cons] at hx
+      rcases hx with rfl | hx
+      · exact absurd hpx hy
+      · exact ⟨x, hx, hpx⟩
+
+theorem new_some_of_same_names {source : Shape ν} {requested : List ν}
+    (hlen : requested.length = source.length) (h1 : ∀ n ∈ namesOf source, n ∈ requested)
+    (h2 : ∀ r ∈ requested, r ∈ namesOf source) :
+    ∃ m, DimensionMappings.new source requested = some m := by
+  simp only [DimensionMappings.new, hlen, ne_eq, not_true_eq_false, if_false]
+  have : ∃ l, (List.range source.length).mapM (mappingAt (source.map (·.1)) requested) = some l := by
+    apply mapM_some_of_forall
+    intro d hd
+    simp only [List.mem_range] at hd
+    have hdr : d < requested.length := by omega
+    simp only [mappingAt, List.getElem?_map, List.getElem?_eq_getElem hd, Option.map_some,
+      List.getElem?_eq_getElem hdr]
+    split
+    · simp
+    · have e1 : (findPos (fun x => decide (x = (source[d]).1)) requested).isSome = true :=
+        findPos_isSome_of_mem ⟨(source[d]).1,
+          h1 _ (List.mem_map.2 ⟨source[d], List.getElem_mem hd, rfl⟩), by simp⟩
+      have e2 : (findPos (fun x => decide (x = requested[d])) (source.map (·.1))).isSome = true :=
+        findPos_isSome_of_mem ⟨requested[d], h2 _ (List.getElem_mem hdr), by simp⟩
+      obtain ⟨a, ha⟩ := Option.isSome_iff_exists.1 e1
+      obtain ⟨b, hb⟩ := Option.isSome_iff_exists.1 e2
+      simp [ha, hb]
+  obtain ⟨l, hl⟩ := this
+  exact ⟨_, by rw [hl]⟩
 
 end EasyMl
